@@ -3,6 +3,7 @@ package sim
 import (
 	"fmt"
 	"sort"
+	"strings"
 	"time"
 
 	abci "github.com/cometbft/cometbft/abci/types"
@@ -292,6 +293,17 @@ func (m *monC11) AfterBlock(c *Chain, req *abci.RequestFinalizeBlock, res *abci.
 				w.Case("C11", fmt.Sprintf("stop cause=%s repeated=%v", cause, si.stops > 1))
 				w.Event("C11", "stop-cause:"+cause)
 			}
+		}
+	}
+	// the provider must not even attempt to send on the channel of a consumer stopped before this block (a failing attempt
+	// emits no event, but stops the consumer again and moves its removal)
+	for _, cl := range w.Calls.Calls {
+		if cl.Method != "channel.SendPacket" || !cl.InBlock || !strings.HasPrefix(cl.Args, ccv.ProviderPortID+"/") {
+			continue
+		}
+		id := m.byChannel(strings.TrimPrefix(cl.Args, ccv.ProviderPortID+"/"))
+		if si := m.stopped[id]; si != nil && !si.stopTime.Equal(req.Time) {
+			w.Violation("C11", "send-attempted-to-stopped-consumer", map[string]any{"consumer": id, "height": req.Height, "error": cl.Err})
 		}
 	}
 	// no packets may be sent to a consumer that was stopped before this block's EndBlock
